@@ -248,6 +248,8 @@ def groups(tier, seed):
         nonot = 'nonot' in tup
         for k in range(0, kmax + 1):
             allmax = 2 if tier == 'quick' or TUPLES[tier].index(tup) >= 3 else 3
+            if tier == 'quick' and TUPLES[tier].index(tup) >= 9:
+                allmax = 1        # the special-purpose tuples: every leaf assignment for one connective, leaves in order beyond
             modes = ['all'] if k <= allmax else ['seq']
             for mode in modes:
                 for f in formulas(k, mode, len(atoms)):
